@@ -511,3 +511,22 @@ ROUND5 = {
 }
 for _k, _v in ROUND5.items():
     CHECKS[_k]["rule"] += " Round 5: " + _v
+
+# Round 6 (third hunt, DESIGN 8.8): what each rule gained.
+ROUND6 = {
+    "C01": "with TabOWS and Fold: a Content-Length whose value stands on a continuation line of its own; tab separators inside the Trailer list; a Trailer list split over two header lines.",
+    "C04": "stream modes: every n-th Read returns (0, nil); the stream has a Close that fails; LimitedReader whose limit exceeds the source (known finding D120); a fifth of the cases runs the programs as the engine's NoRoute handler (status 404 with a chunked-writer body included).",
+    "C05": "unit trailer-late-set: trailer sections of 10 B..20 KB on a chunked stream response whose Close sets another trailer with hostile bytes: clean field lines for trailers the application set, the empty line, nothing behind it.",
+    "C08": "before every connection a gzip file named <root>.hertz.gz is put beside the root, alternately as old as the root directory and of another age: it is never served (compressed bodies are inflated and searched for the canary) and never removed.",
+    "C09": "unit preread-window: streaming server with a 1 KiB body limit; an over-limit POST with a pipelined GET is answered the same on a new server as behind a request of 2..100 KB that grew the pooled body buffer (Body(), SetBody, AppendBody).",
+    "C10": "unit retry-pause: RetryConfig.Delay 50 ms / 2 s with a custom RetryIf against a peer that closes every connection; the call returns within the request timeout plus slack.",
+    "C11": "requests: Header.Set(\"Content-Length\") after SetBodyStream(r, -1), Header.Del(\"Content-Length\") after SetBodyStream(r, n); a quarter of the requests is built on a Request object that was written once as a POST with a body and then ResetBody(); responses: read-until-close with Connection: keep-alive (the next exchange must use a new connection).",
+    "C14": "consumptions body-twice (what the second Body() says counts, on truncated messages too) and writeto-then-body (BodyWriteTo, then Body(): empty or the whole body, never a part or foreign bytes).",
+    "C15": "a field may carry json:\"-\" while the body holds a decoy key with the field's Go name; header names not normalised by the server (spelled as the tag spells them, see the pinned Test_BindHeaderNormalize).",
+    "C17": "URI programs: after Update(ref) the host is the one the reference form prescribes ('//' counts as authority only at the start or behind 'scheme:'); QueryString() of the subject equals QueryString() of the parsed string; cookies: values with an outer space or in double quotes, Max-Age -1 (known finding D126).",
+    "C18": "a busy connection's client may already have written the first bytes of its next request when Shutdown is called, with bodies up to 1 MiB (known finding D132 on the standard transport).",
+    "C19": "the hijack outcome is a POST with a body, the hijack handler reads what the peer sends afterwards (delivered by a later read); in buffered mode Finish records Request.Body(), which must be the body of the finished request.",
+    "C20": "binder-nested shapes: slice and map receivers, an interface field holding a pointer to a struct with rules, recursive types with the rule before / after the recursive field, a recursive map, a mutually recursive pair; a map element selector whose key comes from a field holding a string, a number, nil, a slice or a map.",
+}
+for _k, _v in ROUND6.items():
+    CHECKS[_k]["rule"] += " Round 6: " + _v
